@@ -242,8 +242,8 @@ pub fn generate(g: &mut Gen) {
                     let mut b = match r.below(8) {
                         0 => { let mut x = vec![*r.pick(&[0x82u8, 0x81, 0x83, 0x9f, 0x98, 0x80])]; if x[0] == 0x98 { x.push(2); } x.extend(head(label as u64, r.below(5) as u8)); x.extend(head(if r.chance(1, 3) { r.u64_edgy() } else { c }, r.below(5) as u8)); x }
                         1 => { let n = r.below(8) as usize; r.bytes(n) }
-                        2 => vec![*r.pick(&[0xa2u8, 0x42, 0x62, 0xc2, 0xf6, 0x20, 0x1c, 0xff]), label, c as u8],
-                        3 => { let mut x = vec![0x82, *r.pick(&[3u8, 0x17, 0x18, 0x20, 0x40, 0x80])]; x.extend(head(c, 2)); x }
+                        2 => vec![*r.pick(&[0xa2u8, 0x42, 0x62, 0xc2, 0xf6, 0x20, 0x1c, 0xff, 0x38, 0x39, 0x3a, 0x3b]), label, c as u8],
+                        3 => { let mut x = vec![0x82, *r.pick(&[3u8, 0x17, 0x18, 0x20, 0x40, 0x80, 0x38, 0x3b])]; x.extend(head(c, 2)); x }
                         _ => { let m = match k { 0 => n1::keepalive::Message::KeepAlive(c as u16), 1 => n1::keepalive::Message::ResponseKeepAlive(c as u16), _ => n1::keepalive::Message::Done }; enc(&m) }
                     };
                     match r.below(4) { 0 => { let n = r.below(b.len() as u64 + 1) as usize; b.truncate(n); }, 1 => b.extend(r.bytes(2)), _ => {} }
